@@ -69,13 +69,14 @@ def coq_case(spec, trace):
     items, plans, sts, ds = [], [], [], []
     pred = coq_pred(spec['pred'])
     for rec in trace:
-        items.append('Ev ' + coq_event(rec['ev'], rec.get('pord')))
-        st = rec['state']
-        if spec['kind'] == 'dca':
-            sts.append('([%s], %s, %s)' % ('; '.join('(%d, %s)' % (d, zlist(t)) for d, t in st['live']), zl(st['local']), zl(st['pos'])))
-        else:
-            sts.append('([(0, %s)], 0, %s)' % (zlist(st['live']), zl(st['pos'])))
-        ds.append(zlist(rec['dist']))
+        if rec.get('delivered', True):       # a location "change" to the same dc and rack is not delivered at all
+            items.append('Ev ' + coq_event(rec['ev'], rec.get('pord')))
+            st = rec['state']
+            if spec['kind'] == 'dca':
+                sts.append('([%s], %s, %s)' % ('; '.join('(%d, %s)' % (d, zlist(t)) for d, t in st['live']), zl(st['local']), zl(st['pos'])))
+            else:
+                sts.append('([(0, %s)], 0, %s)' % (zlist(st['live']), zl(st['pos'])))
+            ds.append(zlist(rec['dist']))
         for p in rec['plans']:
             if p['q'] == 'base':
                 w = 'WBase'
@@ -172,6 +173,8 @@ def run(ctx):
     except RuntimeError as e:
         ctx.proof_broken.append(('correspondence:LBP', str(e)[-600:]))
     ctx.trust('Python harness lib/vf/lbp_impl.py: fake cluster (endpoints_resolved, metadata.get_host), real cassandra.pool.Host objects, '
+              'datacenter/rack changes delivered by the real ControlConnection._update_location_info through a real ProfileManager, '
+              'HostFilter predicates answering with truthy/falsy non-bool values, '
               'scripted randint in populate, frozenset / tuple(set()) iteration orders read back from the object and fed to the model')
     ctx.assume('a query plan is consumed atomically with respect to membership events',
                'membership = the events delivered to the policy (DESIGN 4.0): populated/added/up minus down/removed; '
